@@ -93,6 +93,11 @@ type VCase struct {
 	Ops   []string        `json:"ops"`
 	Cache string          `json:"cache"` // cold | disk | mem
 	Perm  uint64          `json:"perm"`  // seed of the declaration-order permutation (0 = as listed)
+	// Spell: seed of the non-canonical spellings of requirement paths in the dawn.toml files, the root's included
+	// (0 = every path written in its clean form)
+	Spell uint64 `json:"spell,omitempty"`
+	// OtherRoots: further root requirement sets resolved over the same universe with the SAME resolver (C10)
+	OtherRoots []map[string]VMod `json:"other_roots,omitempty"`
 }
 
 func (u *VUniverse) nodePath(n *VNode) string {
@@ -121,6 +126,81 @@ func vPseudoVersion(older string, rev int) string {
 	return fmt.Sprintf("v%d.%d.%d-0.%s-%d", pv.maj, pv.min, pv.pat+1, ts, rev)
 }
 
+// ------------------------------------------------------------------------------------------------ path spellings
+
+// refCleanPath: the cleaning rule of project paths, written here independently of dawn's CleanPath and of path.Clean:
+// the part after the last `@` of the last component is the major version; the rest loses empty, `.` and `x/..`
+// components; the major version is put back unless it is empty, v0 or v1.
+func refCleanPath(p string) string {
+	ver := ""
+	slash := strings.LastIndexByte(p, '/')
+	if at := strings.LastIndexByte(p, '@'); at > slash {
+		p, ver = p[:at], p[at+1:]
+	}
+	var out []string
+	for _, c := range strings.Split(p, "/") {
+		switch c {
+		case "", ".":
+		case "..":
+			if len(out) > 0 {
+				out = out[:len(out)-1]
+			}
+		default:
+			out = append(out, c)
+		}
+	}
+	clean := strings.Join(out, "/")
+	if ver == "" || ver == "v0" || ver == "v1" {
+		return clean
+	}
+	return clean + "@" + ver
+}
+
+// vSpell: one of the ways a dawn.toml may write the clean project path p (trailing slash, `/./`, `//`, `x/../x`,
+// a redundant @v1 / @v0), chosen by the seed; seed 0 = p itself
+func vSpell(p string, seed uint64, salt string) string {
+	if seed == 0 {
+		return p
+	}
+	h := seed
+	for _, c := range []byte(salt + "|" + p) {
+		h = h*1099511628211 + uint64(c)
+	}
+	r := &vRng{h}
+	base, suffix := p, ""
+	slash := strings.LastIndexByte(p, '/')
+	if at := strings.LastIndexByte(p, '@'); at > slash {
+		base, suffix = p[:at], p[at:]
+	}
+	last := base[strings.LastIndexByte(base, '/')+1:]
+	head := base[:len(base)-len(last)] // with its trailing slash
+	out := p
+	switch r.below(9) {
+	case 0, 1, 2:
+		out = p
+	case 3:
+		out = base + "/" + suffix
+	case 4:
+		out = head + "./" + last + suffix
+	case 5:
+		out = head + "/" + last + suffix
+	case 6:
+		out = base + "/../" + last + suffix
+	case 7:
+		if suffix == "" {
+			out = base + vPick(r, []string{"@v1", "@v0"})
+		} else {
+			out = head + "./" + last + "/" + suffix
+		}
+	default:
+		out = head + "/./" + last + "/" + suffix
+	}
+	if refCleanPath(out) != p {
+		panic(fmt.Sprintf("harness bug: spelling %q of %q cleans to %q", out, p, refCleanPath(out)))
+	}
+	return out
+}
+
 // ------------------------------------------------------------------------------------------------ fake VCS
 
 type vRevision struct {
@@ -142,8 +222,9 @@ func (r *vRevision) History() iter.Seq[vcs.Revision] {
 }
 
 type vRepo struct {
-	u    *VUniverse
-	perm uint64
+	u     *VUniverse
+	perm  uint64
+	spell uint64
 
 	once     sync.Once
 	versions []*vcs.Version
@@ -231,7 +312,8 @@ func (r *vRepo) FetchRevision(ctx context.Context, projectPath string, revision 
 	reqs := map[string]project.RequirementConfig{}
 	// the resolver reads the requirements back sorted by name: the names fix the declared order
 	for i, q := range vDeclared(n.Reqs, r.perm, n.Base+"/"+n.Version) {
-		reqs[fmt.Sprintf("r%03d", i)] = project.RequirementConfig{Path: q.Path, Version: q.Version}
+		reqs[fmt.Sprintf("r%03d", i)] = project.RequirementConfig{
+			Path: vSpell(q.Path, r.spell, fmt.Sprintf("%s/%s#%d", n.Base, n.Version, i)), Version: q.Version}
 	}
 	projectDir := filepath.Join(destDir, filepath.FromSlash(projectPath))
 	if err := os.MkdirAll(projectDir, 0o700); err != nil {
@@ -516,12 +598,34 @@ func cfgToV(r map[string]project.RequirementConfig) map[string]VMod {
 	return out
 }
 
-func vToCfg(r map[string]VMod) *project.Config {
+// the root project's configuration. With a spelling seed it goes the way the CLI takes: written to a dawn.toml with
+// non-canonical spellings of the requirement paths and loaded back with project.LoadConfigFile.
+func vToCfg(r map[string]VMod, spell uint64) *project.Config {
 	out := map[string]project.RequirementConfig{}
 	for n, q := range r {
-		out[n] = project.RequirementConfig{Path: q.Path, Version: q.Version}
+		out[n] = project.RequirementConfig{Path: vSpell(q.Path, spell, "root#"+n), Version: q.Version}
 	}
-	return &project.Config{Requirements: out}
+	cfg := &project.Config{Requirements: out}
+	if spell == 0 {
+		return cfg
+	}
+	f, err := os.CreateTemp(vScratch, "root-*.toml")
+	if err != nil {
+		panic(err)
+	}
+	f.Close()
+	defer os.Remove(f.Name())
+	if err := project.WriteConfigFile(f.Name(), cfg); err != nil {
+		panic(err)
+	}
+	loaded, err := project.LoadConfigFile(f.Name())
+	if err != nil {
+		panic(fmt.Sprintf("the root dawn.toml does not load: %v", err))
+	}
+	if loaded.Requirements == nil {
+		loaded.Requirements = map[string]project.RequirementConfig{}
+	}
+	return loaded
 }
 
 // the universe as the driver reads it: `<repo> <nodes> <tags> <refs>`
@@ -574,7 +678,7 @@ type vSession struct {
 }
 
 func newSession(c *VCase, perm uint64) *vSession {
-	repo := &vRepo{u: &c.U, perm: perm}
+	repo := &vRepo{u: &c.U, perm: perm, spell: c.Spell}
 	return &vSession{c: c, repo: repo, dialer: vDialer{repos: map[string]*vRepo{c.U.Repo: repo}}}
 }
 
@@ -657,9 +761,9 @@ func guarded(f func() opOut) opOut {
 	}
 }
 
-func runBL(res *Resolver, root map[string]VMod) opOut {
+func runBL(spell uint64, res *Resolver, root map[string]VMod) opOut {
 	return guarded(func() opOut {
-		bl, err := BuildList(context.Background(), vToCfg(root), res)
+		bl, err := BuildList(context.Background(), vToCfg(root, spell), res)
 		if err != nil {
 			return opOut{kind: errKind(err), msg: err.Error()}
 		}
@@ -682,17 +786,17 @@ func runRawBL(res *Resolver, root map[string]VMod) opOut {
 	})
 }
 
-func runEdit(res *Resolver, root map[string]VMod, op string) opOut {
+func runEdit(spell uint64, res *Resolver, root map[string]VMod, op string) opOut {
 	return guarded(func() opOut {
 		var r map[string]project.RequirementConfig
 		var err error
 		switch {
 		case op == "tidy":
-			r, err = Tidy(context.Background(), vToCfg(root), res)
+			r, err = Tidy(context.Background(), vToCfg(root, spell), res)
 		case op == "upall":
-			r, err = UpgradeAll(context.Background(), vToCfg(root), res)
+			r, err = UpgradeAll(context.Background(), vToCfg(root, spell), res)
 		case strings.HasPrefix(op, "get:"):
-			r, err = Get(context.Background(), vToCfg(root), res, op[4:])
+			r, err = Get(context.Background(), vToCfg(root, spell), res, op[4:])
 		default:
 			panic("unknown op " + op)
 		}
@@ -1234,9 +1338,15 @@ func genCase(r *vRng, prop string) *VCase {
 	u, groups := genUniverse(r)
 	c := &VCase{Prop: prop, U: u, Root: genRoot(r, &u, groups)}
 	c.Cache = vPick(r, []string{"cold", "disk", "mem"})
+	if r.chance(1, 2) {
+		c.Spell = r.next() | 1
+	}
 	if prop == "C10" {
 		c.Ops = []string{"bl"}
 		c.Perm = r.next() | 1
+		for k := 1 + r.below(2); k > 0; k-- {
+			c.OtherRoots = append(c.OtherRoots, genRoot(r, &u, groups))
+		}
 		return c
 	}
 	bl, _ := refGraphOf(&u, nil).buildList(rootMods(c.Root))
@@ -1267,7 +1377,8 @@ type caseOut struct {
 func (o *caseOut) stat(k string) { o.stats[k]++ }
 
 func (o *caseOut) violation(c *VCase, kind, detail string, step int, key string) {
-	in := map[string]any{"universe": c.U, "root": c.Root, "ops": c.Ops, "cache": c.Cache, "perm": c.Perm, "prop": c.Prop}
+	in := map[string]any{"universe": c.U, "root": c.Root, "ops": c.Ops, "cache": c.Cache, "perm": c.Perm, "prop": c.Prop,
+		"spell": c.Spell, "other_roots": c.OtherRoots}
 	v := map[string]any{"prop": c.Prop, "kind": kind, "detail": detail, "step": step, "input": in, "line": o.line}
 	if key != "" {
 		v["mechanism"] = key
@@ -1290,6 +1401,9 @@ func queryPathOf(op string) string {
 // step with the reference.
 func runCase(c *VCase) *caseOut {
 	o := &caseOut{stats: map[string]int{}}
+	if c.Spell != 0 {
+		o.stat("case-with-spelled-paths")
+	}
 	s := newSession(c, 0)
 	defer s.close()
 	tags, _ := s.repo.Versions(context.Background())
@@ -1347,7 +1461,7 @@ func runCase(c *VCase) *caseOut {
 		// the same universe with every requirement list declared in another order: the model is run on it too
 		s2 := newSession(c, c.Perm)
 		defer s2.close()
-		r2 := runBL(s2.resolver("cold"), cur)
+		r2 := runBL(c.Spell, s2.resolver("cold"), cur)
 		a2 := r2.kind
 		if r2.kind == "ok" {
 			a2 = "ok:" + encBL(r2.bl)
@@ -1359,12 +1473,44 @@ func runCase(c *VCase) *caseOut {
 		}
 		o.stat("order-permuted")
 	}
+	if c.Prop == "C10" && len(c.OtherRoots) > 0 {
+		// resolver reuse: ONE resolver (then a fresh one over the cache it has filled) resolves a sequence of different
+		// root requirement sets over the universe — A, B, (C,) A again; every answer is judged against the reference
+		// of ITS root, and the model is run on every root
+		seq := []map[string]VMod{c.Root}
+		seq = append(seq, c.OtherRoots...)
+		seq = append(seq, c.Root)
+		reuse := newSession(c, 0)
+		defer reuse.close()
+		for _, mode := range []string{"mem", "disk"} {
+			for i, root := range seq {
+				got := runBL(c.Spell, reuse.resolver(mode), root)
+				a := got.kind
+				if got.kind == "ok" {
+					a = "ok:" + encBL(got.bl)
+				}
+				want, ok := g.buildList(rootMods(root))
+				w := "err:buildlist"
+				if ok {
+					w = "ok:" + encBL(want)
+				}
+				if a != w {
+					o.violation(c, "bl-resolver-reuse", fmt.Sprintf("resolution %d of %d with one resolver (%s): root %s answered %s, reference %s",
+						i+1, len(seq), mode, encReqs(root), a, w), 0, "")
+				}
+				o.stat("bl-reuse:" + mode)
+				if mode == "mem" && i > 0 && i < len(seq)-1 {
+					o.lines = append(o.lines, "C\t"+stream+"\tseq "+encUniverse(&c.U, 0, tags, extraNodes, refs)+" "+encReqs(root)+" bl\t"+a)
+				}
+			}
+		}
+	}
 	return o
 }
 
 // C10: the build list of `root` against reachability/max; each once; independent of map order and cache state
 func judgeBL(o *caseOut, c *VCase, s *vSession, g *refGraph, root map[string]VMod, step int) string {
-	first := runBL(s.resolver(c.Cache), root)
+	first := runBL(c.Spell, s.resolver(c.Cache), root)
 	o.stat("bl:" + first.kind)
 	ans := first.kind
 	if first.kind == "ok" {
@@ -1434,7 +1580,7 @@ func judgeBL(o *caseOut, c *VCase, s *vSession, g *refGraph, root map[string]VMo
 	}
 	// map iteration order / cache state: every other way of asking gives the same answer
 	for _, mode := range []string{"cold", "disk", "disk", "mem", "mem"} {
-		again := runBL(s.resolver(mode), root)
+		again := runBL(c.Spell, s.resolver(mode), root)
 		a := again.kind
 		if again.kind == "ok" {
 			a = "ok:" + encBL(again.bl)
@@ -1483,7 +1629,7 @@ func judgeEdit(o *caseOut, c *VCase, s *vSession, g *refGraph, root map[string]V
 	if isGet {
 		resolved, branch, haveObs = observeGet(s.resolver("mem"), root, op[4:])
 	}
-	out := runEdit(s.resolver(c.Cache), root, op)
+	out := runEdit(c.Spell, s.resolver(c.Cache), root, op)
 	o.stat(kindOp + ":" + out.kind)
 	if out.kind == "hang" || out.kind == "panic" {
 		o.violation(c, kindOp+"-"+out.kind, fmt.Sprintf("%s on %s did not return within %v %s", op, encReqs(root), vTimeout, out.msg), step, "")
@@ -1528,7 +1674,7 @@ func judgeEdit(o *caseOut, c *VCase, s *vSession, g *refGraph, root map[string]V
 		}
 	}
 	for k := 0; k < repeats; k++ {
-		again := runEdit(s.resolver("mem"), root, op)
+		again := runEdit(c.Spell, s.resolver("mem"), root, op)
 		if again.kind != "ok" || encReqs(again.reqs) != encReqs(next) {
 			a := again.kind
 			if again.kind == "ok" {
@@ -1545,7 +1691,7 @@ func judgeEdit(o *caseOut, c *VCase, s *vSession, g *refGraph, root map[string]V
 		return ans, next
 	}
 	// the implementation's own build list of the result agrees with the reference (C10 on the new graph)
-	if implAfter := runBL(s.resolver("mem"), next); implAfter.kind != "ok" || !eqBL(implAfter.bl, after) {
+	if implAfter := runBL(c.Spell, s.resolver("mem"), next); implAfter.kind != "ok" || !eqBL(implAfter.bl, after) {
 		o.violation(c, kindOp+"-result-buildlist", "BuildList of the result disagrees with the reference: "+implAfter.kind+" "+encBL(implAfter.bl)+" vs "+encBL(after), step, "")
 	}
 
@@ -1635,7 +1781,7 @@ func judgeEdit(o *caseOut, c *VCase, s *vSession, g *refGraph, root map[string]V
 	// build lists above (a lost requirement lowers or removes a project)
 
 	// repeating the operation changes nothing
-	twice := runEdit(s.resolver(c.Cache), next, op)
+	twice := runEdit(c.Spell, s.resolver(c.Cache), next, op)
 	o.stat(kindOp + "-again:" + twice.kind)
 	switch {
 	case twice.kind == "hang" || twice.kind == "panic":
@@ -1843,6 +1989,17 @@ func directedCases(prop string) []*VCase {
 			out = append(out, &VCase{Prop: prop, Cache: cache, Perm: 5, U: multi,
 				Root: map[string]VMod{"a": {P("lib"), vPseudoVersion("v1.1.0", 4)}, "z": {P("app"), "v0.9.0"}}, Ops: []string{"bl"}})
 			out = append(out, &VCase{Prop: prop, Cache: cache, Perm: 5, U: multi, Root: map[string]VMod{"u": {repo, "v1.0.0"}, "tool": {P("tool"), "v1.0.0"}}, Ops: []string{"bl"}})
+		}
+	}
+	// every second directed case writes its dawn.toml files with non-canonical spellings of the requirement paths;
+	// the C10 ones also resolve a second root with the same resolver
+	for i, c := range out {
+		if i%2 == 1 {
+			c.Spell = 0x5eed + uint64(i)
+		}
+		if prop == "C10" && len(c.U.Nodes) > 0 {
+			n := &c.U.Nodes[0]
+			c.OtherRoots = []map[string]VMod{{"other": {c.U.nodePath(n), n.Version}}}
 		}
 	}
 	return out
